@@ -299,7 +299,9 @@ func main() {
 	// At this point, we have the Bondmachine, inputs, and outputs loaded
 	// Further processing would go here
 
+	verifProbe("start")
 	bestSimDelays, _ := simbox.RunGeneticAlgorithm(usedOpcodes, geneticConfig, fe.FitnessFunction)
+	verifProbe("end")
 
 	// Save the best delays to the delays file
 	simDelaysJSON, err := json.MarshalIndent(simbox.MergeSimDelays(simDelays, bestSimDelays), "", "  ")
